@@ -103,6 +103,7 @@ namespace sim
         int last_events[NG_MAX_ACTORS];
         uint64_t last_activity[NG_MAX_ACTORS];
         uint64_t send_calls  = 0;
+        int accept_failures  = 0;               // the next n accept4() calls of gated threads fail with EMFILE
         // all of this is touched by one thread at a time (gate), so no locking
         void reset()
         {
@@ -176,6 +177,23 @@ int pthread_mutex_lock(pthread_mutex_t* m)
     if (ng_active() && ng_self() >= 0 && (ng_is_fine() || !ng_mutex_free(m)))
         ng_park_at(1, m);
     return fn(m);
+}
+
+// environment fault: the process is out of descriptors for the next n accepts (the connection stays in the backlog)
+int accept4(int fd, struct sockaddr* addr, socklen_t* len, int flags)
+{
+    static auto fn = sim::real<int (*)(int, struct sockaddr*, socklen_t*, int)>("accept4");
+    if (ng_self() >= 0 && ng_active())
+    {
+        sim::TsanIgnore ign;
+        if (sim::S().accept_failures > 0)
+        {
+            --sim::S().accept_failures;
+            errno = EMFILE;
+            return -1;
+        }
+    }
+    return fn(fd, addr, len, flags);
 }
 
 int epoll_wait(int epfd, struct epoll_event* evs, int maxev, int timeout)
